@@ -60,3 +60,8 @@ impl BTreeMap<Value> {
 #[verifier::external_body]
 pub fn vx_data_new() -> (r: BTreeMap<Value>) ensures r.view_spec() == vstd::map::Map::<Seq<char>, Value>::empty() { unimplemented!() }
 pub struct Context { pub data: BTreeMap<Value> }
+// `Value: Clone` (derived in the real source): the clone is an equal value
+impl Clone for Value {
+    #[verifier::external_body]
+    fn clone(&self) -> (r: Self) ensures r == *self { unimplemented!() }
+}
